@@ -606,8 +606,24 @@ pub fn gen_op(
 /// Generates a whole run for a sequential-history property.
 pub fn gen_run(property: &str, seed: u64, p: &Profile) -> RunSpec {
     let mut r = Rng::new(seed);
-    let cfg = gen_cfg(&mut r, p);
+    let mut cfg = gen_cfg(&mut r, p);
     let focus = p.leveled_focus && r.chance(1, 3);
+    // shared-blob prelude (a quarter of the key-value-separated runs); half of those are
+    // "shared-blob focus" runs: low staleness threshold, generous age cutoff and a history of
+    // overwrites / flushes / leveled compactions with threshold 1, so that a blob file that
+    // several last-level tables point into becomes stale while only some of those tables take
+    // part in a compaction (the rule in pick_blob_files_to_rewrite)
+    let shared_prelude = p.shared_blob_prelude && cfg.blob.is_some() && r.chance(1, 4);
+    let shared_focus = shared_prelude && !focus && r.chance(1, 2);
+    if shared_focus {
+        if let Some(b) = cfg.blob.as_mut() {
+            b.staleness = *r.pick(&[0.01f32, 0.1, 0.25]);
+            b.age_cutoff = *r.pick(&[0.5f32, 1.0, 1.0]);
+        }
+        // small blocks, so that the prelude's pointers fill several blocks and a table target
+        // size of 1 really splits them into several tables
+        cfg.block_size = *r.pick(&[64u32, 64, 128]);
+    }
     let span = if r.chance(1, 4) { 36 } else { 10 };
     let nkeys = 4 + r.usize(span);
     let keys = if p.fifo {
@@ -615,7 +631,7 @@ pub fn gen_run(property: &str, seed: u64, p: &Profile) -> RunSpec {
     } else {
         gen_keys(&mut r, nkeys)
     };
-    let keys = if focus && !p.fifo && keys.len() < 24 {
+    let keys = if (focus || shared_focus) && !p.fifo && keys.len() < 24 {
         let mut ks: std::collections::BTreeSet<Bytes> = keys.into_iter().collect();
         for k in gen_keys(&mut r, 30) {
             ks.insert(k);
@@ -652,7 +668,24 @@ pub fn gen_run(property: &str, seed: u64, p: &Profile) -> RunSpec {
         weights[W_SCAN] = p.w[W_SCAN].min(3);
         n_ops_override = Some(60 + r.usize(80));
     }
+    if shared_focus {
+        fixed_leveled = Some((1, *r.pick(&[1u64, 1, 64, 1024]), *r.pick(&[2.0f32, 10.0])));
+        weights = [0; 18];
+        weights[W_WRITE] = 40;
+        weights[W_FLUSH_ACTIVE] = 16;
+        weights[W_LEVELED] = 22;
+        weights[W_ROTATE] = 2;
+        weights[W_MAJOR] = 1;
+        weights[W_REOPEN] = 1;
+        weights[W_SNAP_OPEN] = p.w[W_SNAP_OPEN].min(2);
+        weights[W_SNAP_CLOSE] = p.w[W_SNAP_CLOSE].min(2);
+        weights[W_SCAN] = p.w[W_SCAN].min(3);
+        n_ops_override = Some(30 + r.usize(50));
+    }
     for (i, w) in weights.iter_mut().enumerate() {
+        if shared_focus {
+            break;
+        }
         if i != W_WRITE && i != W_FLUSH_ACTIVE && *w > 0 && r.chance(1, 5) {
             *w = 0;
         }
@@ -673,10 +706,16 @@ pub fn gen_run(property: &str, seed: u64, p: &Profile) -> RunSpec {
         fifo_descending: p.fifo && r.chance(1, 2),
     };
     let mut ops = Vec::with_capacity(n_ops);
-    if p.shared_blob_prelude && cfg.blob.is_some() && r.chance(1, 4) {
+    if shared_prelude {
         let thr = cfg.blob.as_ref().map_or(8, |b| b.threshold as usize);
-        let n = 3 + r.usize(5).min(keys.len().saturating_sub(3));
-        for k in keys.iter().take(n) {
+        let n = if shared_focus {
+            (10 + r.usize(14)).min(keys.len())
+        } else {
+            3 + r.usize(5).min(keys.len().saturating_sub(3))
+        };
+        // focus runs spread the prelude over the universe, so later overwrites hit single tables
+        let stride = if shared_focus { (keys.len() / n).max(1) } else { 1 };
+        for k in keys.iter().step_by(stride).take(n) {
             st.next_value_id += 1;
             let mut v = format!("v{}:", st.next_value_id).into_bytes();
             while v.len() < thr + 4 {
